@@ -7,7 +7,7 @@
 (*   "body0":[bytes the original encodes to],"body1":[bytes the re-parsed message encodes to]} *)
 (*  {"ev":"Fuzz","toks":[..],"safe":bool,"outcome":..,"okind":"ok"|"arith"|"exc",               *)
 (*   "evaluated":bool}: mutated texts; okind "arith" = the exception is one only running the   *)
-(*   text can raise (ZeroDivisionError, ...)                                                   *)
+(*   text can raise (ZeroDivision/Overflow/NameError)                                                  *)
 EXTENDS HumanText, Json, IOUtils, TLCExt
 TraceLog == ndJsonDeserialize(IOEnv.TRACE_FILE)
 VARIABLES l, tid
@@ -50,7 +50,9 @@ TFuzz == /\ IsEvent("Fuzz") /\ UNCHANGED <<tid, vars>>
             /\ Chk("safe.rejects-only-eval-operator", (Rec.outcome = RejectMsg) => (Rec.safe /\ p.status = "rejected"))
             \* a value that is not a literal (nor a special plain form) under "=" / "=|" is never accepted and never run,
             \* in safe mode and otherwise
-            /\ Chk("literal-only.nonliteral-never-accepted", (p.status = "refused") => (Rec.okind = "exc"))
+            /\ Chk("literal-only.nonliteral-never-accepted", (p.status = "refused") => (Rec.okind # "ok"))
+            \* ... nor does it fail in a way only running it can (unless an eval operator legitimately ran before it)
+            /\ Chk("literal-only.nonliteral-never-run", (p.status = "refused" /\ ~p.evaluated) => (Rec.okind = "exc"))
             \* with safe mode off, evaluation happens only where the machine reaches an eval operator
             /\ Chk("unsafe.evaluates-only-eval-operator", Rec.evaluated => p.evaluated)
 
